@@ -207,6 +207,12 @@ impl Chunk {
     /// Optimize bytecode by combining common instruction patterns to avoid pushing/popping
     /// so much on the stack in the VM when we can
     pub(crate) fn optimize(&mut self) {
+        #[cfg(tera_verif)]
+        if !crate::verif::optimize_enabled() {
+            return;
+        }
+        #[cfg(tera_verif)]
+        let verif_before = crate::verif::recording().then(|| format!("{self:?}"));
         let mut old_instructions = std::mem::take(&mut self.instructions);
         let mut optimized = Vec::with_capacity(old_instructions.len());
         // Map from old instruction index to new instruction index
@@ -329,6 +335,10 @@ impl Chunk {
         }
 
         self.instructions = optimized;
+        #[cfg(tera_verif)]
+        if let Some(before) = verif_before {
+            crate::verif::record_listing(&self.name, before, format!("{self:?}"));
+        }
     }
 }
 
